@@ -231,7 +231,7 @@ def _p_is_projection(ctx, r, rng):
     u = gen.haar(rng, d, real=not cplx)
     ask(ctx, "is_projection", (p,), True, "pos", d, cplx, nt=False)
     ask(ctx, "is_projection", (u @ p @ u.conj().T,), True, "pos-conjugated", d, cplx)
-    ask(ctx, "is_projection", (p + delta * np.eye(d),), False, "neg-shifted", d, cplx)
+    ask(ctx, "is_projection", (p + min(delta, 0.5) * np.eye(d),), False, "neg-shifted", d, cplx)  # (shift 1 on the zero projector would give the identity)
     ask(ctx, "is_projection", ((1 + delta) * np.eye(d),), False, "neg-scaled-identity", d, cplx)
     ask(ctx, "is_projection", (np.ones((d, d + 1)),), False, "neg-nonsquare", d, False)
 
@@ -245,7 +245,7 @@ def _p_is_idempotent(ctx, r, rng):
     if np.linalg.cond(s) < 50:
         ob = s @ np.diag((np.arange(d) < k).astype(float)) @ np.linalg.inv(s)
         ask(ctx, "is_idempotent", (ob,), True, "pos-oblique", d, cplx)
-    ask(ctx, "is_idempotent", (p + delta * np.eye(d),), False, "neg-shifted", d, cplx)
+    ask(ctx, "is_idempotent", (p + min(delta, 0.5) * np.eye(d),), False, "neg-shifted", d, cplx)
     ask(ctx, "is_idempotent", (np.ones((d + 1, d)),), False, "neg-nonsquare", d, False)
 
 
